@@ -292,7 +292,7 @@ def run_c37(ctx):
         ctx.extra["replay_steps_" + label] = n
     # binding B
     rng = random.Random(ctx.seed)
-    ntr = ctx.pick(150, 2500)
+    ntr = ctx.pick(150, 1500)
     U = list(range(1, 8))
     N = ["n%d" % i for i in range(1, 8)]
     H = ["h%d" % i for i in range(1, 8)]
@@ -303,7 +303,7 @@ def run_c37(ctx):
         ctx.diverge(Divergence("C37", "exception", e["op"], e["where"], e["detail"], steps=t))
     trs = [t for t in trs if t[-1]["ev"] != "EXCEPTION"]
     cfg = cfg_text(U, N, H, 60, 1000, True, spec="TraceSpec") + "CONSTRAINT TraceOK\nCHECK_DEADLOCK FALSE\n"
-    out = trace.validate("RemotesTrace", cfg, SPEC_DIR, trs, batch=ctx.pick(40, 100))
+    out = trace.validate("RemotesTrace", cfg, SPEC_DIR, trs, batch=ctx.pick(75, 125))
     ctx.states += out.states
     ctx.transitions += out.generated
     ctx.add_validated(len(out.accepted), {"trace": [{k: e[k] for k in e if k in ("ev", "id", "u", "n", "h", "new", "res")}
@@ -315,10 +315,10 @@ def run_c37(ctx):
             k = (e["ev"], e["res"]["t"])
             outcomes[k] = outcomes.get(k, 0) + 1
     for op in ("Add", "AddAuto", "Move", "Rename", "Reha", "Remove"):
-        if (op, "ok") not in outcomes:
+        if (op, "ok") not in outcomes and not ctx.divs:
             raise tlc.TlcError("vacuous random histories: no successful %s" % op)
     for op in ("Add", "Move", "Rename", "Reha", "MoveF", "RenameF", "RehaF", "RemoveF", "AddAgain"):
-        if (op, "err") not in outcomes:
+        if (op, "err") not in outcomes and not ctx.divs:
             raise tlc.TlcError("vacuous random histories: no rejected %s" % op)
     for i, pref in sorted(out.rejected.items())[:10]:
         ev = trs[i][pref] if 0 <= pref < len(trs[i]) else {}
